@@ -353,8 +353,10 @@ def run_program_impl(program, world, max_steps=20000):
             if op is not OpCode.STOP:
                 m._fn_table[op] = wrap(m._fn_table[op])
         rec_before_flush = None
-        m.run(program)
-        if state.get('fuel'):
+        # one instruction can take unbounded time (a tower of ^ on integers): such runs are counted like exhausted fuel
+        with time_limit(60) as tl:
+            m.run(program)
+        if state.get('fuel') or tl.fired:
             return 'FUEL', rec.events
         global LAST_EXC
         LAST_EXC = state['exc']
@@ -389,8 +391,10 @@ class time_limit:
         import signal
         import threading
         self.active = threading.current_thread() is threading.main_thread()
+        self.fired = False
         if self.active:
             def on_alarm(signum, frame):
+                self.fired = True
                 raise CompilerHangs('no result after %s s' % self.seconds)
             self.old = signal.signal(signal.SIGALRM, on_alarm)
             signal.setitimer(signal.ITIMER_REAL, self.seconds)
